@@ -21,6 +21,10 @@ theorem PlainTree.set {t : XTree} (h : PlainTree t) (k : Bytes) (x : XNode) (hx 
   · cases hy; exact hx
   · exact h k' y hy
 
+theorem PlainTree.bound {t : XTree} (h : PlainTree t) : XBound t := by
+  intro k tg hk
+  rcases h k _ hk with e | ⟨d, e⟩ <;> cases e
+
 theorem xMkdirs_plainTree : ∀ (ds : List Bytes) (t t1 : XTree), PlainTree t → xMkdirs t ds = some t1 → PlainTree t1 := by
   intro ds
   induction ds with
@@ -368,7 +372,7 @@ theorem addMembers_plain_fail : ∀ (ms : List Member) (fs : FS) (t : XTree),
     | none => exact member_fail m ms fs t h hrep hpt (hk m (by simp)) hins
     | some t2 =>
       simp only [hins] at hx
-      obtain ⟨fs2, he, h2, hrep2⟩ := member_step m ms fs t t2 h hrep hins
+      obtain ⟨fs2, he, h2, hrep2⟩ := member_step m ms fs t t2 h hrep (PlainTree.bound hpt) hins
       obtain ⟨e, hfail⟩ := ih fs2 t2 h2 hrep2 (xInsert_plainTree t t2 m hpt (hk m (by simp)) hins)
         (fun x hx' => hk x (by simp [hx'])) hx
       exact ⟨e, by rw [he, hfail]⟩
